@@ -516,6 +516,9 @@ func run(c histCase) (o pbt.Outcome) {
 	// sweep lies entirely between two operations, and (for the race detector) every
 	// lookup is ordered before the next operation but one.
 	quiesce := func() string {
+		if freeReaders {
+			return ""
+		}
 		base := make([]int64, len(readers))
 		for i, r := range readers {
 			base[i] = r.ticks.Load()
@@ -754,7 +757,75 @@ func indexOf(n string) int {
 	return -1
 }
 
+
+// ---------------------------------------------------------------- race detector reports
+
+// The race runtime (GORACE=halt_on_error=0 log_path=...) appends its reports to
+// log_path.<pid>. A report is a violation of this property's concurrency clause,
+// but the testing package only says "race detected", so each concurrent
+// sub-check looks at the log when it ends and emits the driver's VIOLATION line
+// with the case that was running last.
+var raceSeen int
+
+func raceReports() (n int, first string) {
+	lp := ""
+	for _, f := range strings.Fields(os.Getenv("GORACE")) {
+		if strings.HasPrefix(f, "log_path=") {
+			lp = strings.TrimPrefix(f, "log_path=")
+		}
+	}
+	if lp == "" {
+		return
+	}
+	b, err := os.ReadFile(fmt.Sprintf("%s.%d", lp, os.Getpid()))
+	if err != nil {
+		return
+	}
+	blocks := strings.Split(string(b), "WARNING: DATA RACE")
+	n = len(blocks) - 1
+	if n > raceSeen {
+		// the two access stacks of the first new report, Gaea and harness frames only
+		var frames []string
+		for _, line := range strings.Split(blocks[raceSeen+1], "\n") {
+			l := strings.TrimSpace(line)
+			if strings.HasPrefix(l, "Write at") || strings.HasPrefix(l, "Read at") || strings.HasPrefix(l, "Previous") {
+				frames = append(frames, l)
+			} else if strings.HasPrefix(l, "github.com/XiaoMi/Gaea/") && len(frames) < 10 {
+				frames = append(frames, strings.TrimPrefix(l, "github.com/XiaoMi/Gaea/"))
+			}
+			if strings.HasPrefix(l, "Goroutine ") {
+				break
+			}
+		}
+		first = strings.Join(frames, " <- ")
+	}
+	return
+}
+
+func raceGuard(t *testing.T, sub string, last func() interface{}) {
+	n, first := raceReports()
+	if n <= raceSeen {
+		return
+	}
+	newReports := n - raceSeen
+	raceSeen = n
+	dir := filepath.Join(pbt.VerifDir(), "build", "fail")
+	os.MkdirAll(dir, 0o755)
+	p := filepath.Join(dir, fmt.Sprintf("C31-%s-race-seed%d.json", sub, pbt.Seed()))
+	detail := fmt.Sprintf("the race detector reported %d data race(s) during sub-check %s (needs the -race build to reproduce); first: %s", newReports, sub, first)
+	cj, _ := json.Marshal(last())
+	b, _ := json.MarshalIndent(map[string]interface{}{"property": "C31", "sub": sub, "expect": "pass", "detail": detail, "case": json.RawMessage(cj)}, "", " ")
+	os.WriteFile(p, b, 0o644)
+	fmt.Printf("VIOLATION property=C31 replay=%s\n  detail: %s\n", p, detail)
+	t.Errorf("violation: %s", detail)
+}
+
 // ---------------------------------------------------------------- tests
+
+// freeReaders (probe only, never set by the driver): readers are not held to
+// "a lookup overlaps at most one operation". Used to show what the race
+// detector says about lookups that straddle a commit and the next prepare.
+var freeReaders = os.Getenv("C31_FREE_READERS") == "1"
 
 func raceRun() bool { return os.Getenv("VERIF_RACE") == "1" }
 
@@ -768,14 +839,17 @@ func TestC31Sequential(t *testing.T) {
 }
 
 func TestC31Concurrent(t *testing.T) {
-	quick, thorough := 150, 600
+	quick, thorough := 100, 600
 	if raceRun() {
-		quick, thorough = 80, 150 // the race runtime allows 8128 live goroutines; Gaea parks one per replaced namespace for 60 s
+		quick, thorough = 60, 150 // the race runtime allows 8128 live goroutines; Gaea parks one per replaced namespace for 60 s
 	}
+	var last histCase
+	defer raceGuard(t, "concurrent", func() interface{} { return last })
 	pbt.RunWith(t, pbt.Spec{ID: "C31", Sub: "concurrent", Quick: quick, Thorough: thorough,
 		Rule: "the same histories issued by one writer while 1-3 reader goroutines sweep GetNamespace / GetNamespaceByUser / CheckUser; every lookup is stamped with the step counter before and after and must return a value the specification had at some moment in that window; readers complete two sweeps between consecutive operations (a lookup overlaps at most one operation); run under -race in the thorough tier; non-trivial = interleaved history (as in the sequential sub-check)",
 		Floor: 0.3}, genConc, func(c histCase, _ *pbt.Recorder) pbt.Outcome {
 		writeLastInput(c)
+		last = c
 		return checkConc(c)
 	})
 }
@@ -790,4 +864,177 @@ func writeLastInput(c histCase) {
 	cj, _ := json.Marshal(c)
 	b, _ := json.Marshal(map[string]interface{}{"property": "C31", "sub": "concurrent", "expect": "pass", "case": json.RawMessage(cj)})
 	os.WriteFile(filepath.Join(d, "last_input.json"), b, 0o644)
+}
+
+// ---------------------------------------------------------------- new names while the metrics ticker runs
+
+// A namespace name the proxy has never seen makes ReloadNamespacePrepare add an
+// entry to StatisticManager.SQLResponsePercentile, a map that the 4 s metrics
+// ticker iterates (StatisticManager.CalcAvgSQLTimes) and sessions read. An
+// unguarded insert there is a fatal "concurrent map iteration and map write"
+// (fixed in d2154c0). The histories above use three names that exist from the
+// start, so this sub-check covers the fresh-name path: one goroutine plays the
+// ticker by calling the exported CalcAvgSQLTimes back to back (exactly one, as
+// in the proxy) while the writer prepares / commits / deletes fresh names and
+// checks the namespace and credential views of the fresh name after each step.
+// Under -race an unsynchronised insert is reported on the first case.
+
+type freshCase struct {
+	Fresh   int   `json:"fresh"`   // 1..3 never-seen names
+	Rounds  []int `json:"rounds"`  // per name: number of prepare+commit rounds (1..2)
+	Abandon bool  `json:"abandon"` // last name: prepare only, never committed
+}
+
+func genFresh(t *rapid.T) freshCase {
+	c := freshCase{Fresh: rapid.IntRange(1, 3).Draw(t, "fresh"), Abandon: rapid.Bool().Draw(t, "abandon")}
+	for i := 0; i < c.Fresh; i++ {
+		c.Rounds = append(c.Rounds, rapid.IntRange(1, 2).Draw(t, "rounds"))
+	}
+	return c
+}
+
+var freshCounter atomic.Int64
+
+func checkFresh(c freshCase) (o pbt.Outcome) {
+	if c.Fresh < 1 || c.Fresh > 3 || len(c.Rounds) != c.Fresh {
+		o.Skip = "malformed case"
+		return
+	}
+	m := manager()
+	sm := m.GetStatisticManager()
+	var (
+		stop  atomic.Bool
+		calls atomic.Int64
+		died  atomic.Value
+		wg    sync.WaitGroup
+	)
+	wg.Add(1)
+	go func() { // the metrics ticker (task 2 of startConnectPoolMetricsTask), without the 4 s pause
+		defer wg.Done()
+		defer func() {
+			if p := recover(); p != nil {
+				died.Store(fmt.Sprint(p))
+			}
+		}()
+		for !stop.Load() {
+			sm.CalcAvgSQLTimes()
+			calls.Add(1)
+		}
+	}()
+	waitCalls := func(n int64) string {
+		base := calls.Load()
+		deadline := time.Now().Add(60 * time.Second)
+		for calls.Load() < base+n {
+			if d := died.Load(); d != nil {
+				return "the metrics computation panicked: " + d.(string)
+			}
+			if time.Now().After(deadline) {
+				return "harness: CalcAvgSQLTimes made no progress"
+			}
+			time.Sleep(200 * time.Microsecond)
+		}
+		return ""
+	}
+	defer func() {
+		stop.Store(true)
+		wg.Wait()
+	}()
+
+	var names []string
+	fail := func(f string, a ...interface{}) {
+		if o.Violation == "" {
+			o.Violation = fmt.Sprintf(f, a...)
+		}
+	}
+	view := func(name string) int {
+		ns := m.GetNamespace(name)
+		if ns == nil {
+			return absent
+		}
+		remember(ns)
+		return ns.GetMaxResultSize() - nsenv.VersionBase
+	}
+	if p := pbt.Catch(func() {
+		for i := 0; i < c.Fresh && o.Violation == ""; i++ {
+			name := fmt.Sprintf("fresh%d", freshCounter.Add(1))
+			names = append(names, name)
+			for r := 1; r <= c.Rounds[i] && o.Violation == ""; r++ {
+				before := view(name)
+				if err := m.ReloadNamespacePrepare(nsenv.Config(name, r)); err != nil {
+					fail("prepare(%s,v%d) rejected: %v", name, r, err)
+					return
+				}
+				if got := view(name); got != before {
+					fail("prepare(%s,v%d) alone changed the active version from %d to %d", name, r, before, got)
+					return
+				}
+				if i == c.Fresh-1 && r == c.Rounds[i] && c.Abandon {
+					o.Labels = append(o.Labels, "abandoned_prepare")
+					break
+				}
+				if err := m.ReloadNamespaceCommit(name); err != nil {
+					fail("commit(%s) directly after its prepare: %v", name, err)
+					return
+				}
+				if got := view(name); got != r {
+					fail("after prepare(%s,v%d); commit the active version is %d", name, r, got)
+					return
+				}
+				if got := m.GetNamespaceByUser(nsenv.UserName(name, r), nsenv.UserPassword(name, r)); got != name {
+					fail("after commit of %s v%d its user resolves to %q", name, r, got)
+					return
+				}
+			}
+		}
+		// every earlier fresh name is still there at its last committed version
+		for i, name := range names {
+			want := c.Rounds[i]
+			if i == c.Fresh-1 && c.Abandon {
+				want--
+				if want == 0 {
+					want = absent
+				}
+			}
+			if got := view(name); got != want && o.Violation == "" {
+				fail("namespace %s is at version %d after the other fresh names were added, want %d", name, got, want)
+			}
+		}
+	}); p != "" {
+		fail("runtime panic while reloading a fresh name: %s", p)
+	}
+	// the ticker must get through a whole computation that started after the last insert
+	if q := waitCalls(2); q != "" {
+		fail("%s", q)
+	}
+	// leave nothing behind: settle an abandoned prepare, delete the fresh names
+	pbt.Catch(func() {
+		if c.Abandon && len(names) > 0 {
+			last := names[len(names)-1]
+			m.ReloadNamespacePrepare(nsenv.Config(last, 9))
+			m.ReloadNamespaceCommit(last)
+		}
+		for _, name := range names {
+			if err := m.DeleteNamespace(name); err != nil {
+				fail("delete(%s): %v", name, err)
+			}
+			if got := view(name); got != absent {
+				fail("namespace %s still at version %d after delete", name, got)
+			}
+		}
+	})
+	o.NonTrivial = true
+	o.Labels = append(o.Labels, fmt.Sprintf("fresh_names_%d", c.Fresh))
+	return
+}
+
+func TestC31FreshNames(t *testing.T) {
+	quick, thorough := 25, 120
+	if raceRun() {
+		quick, thorough = 20, 40 // statistics entries are never removed; one CalcAvgSQLTimes costs 1 ms per name ever seen
+	}
+	var last freshCase
+	defer raceGuard(t, "fresh_names", func() interface{} { return last })
+	pbt.Run(t, pbt.Spec{ID: "C31", Sub: "fresh_names", Quick: quick, Thorough: thorough,
+		Rule: "1-3 never-seen namespace names get 1-2 prepare+commit rounds (optionally the last prepare is abandoned) and are deleted again while one goroutine runs StatisticManager.CalcAvgSQLTimes back to back as the metrics ticker does; the fresh name's active version and user are checked after each step; the race detector watches the statistics registry; every case is non-trivial (a new registry entry is inserted while the ticker iterates)",
+		Floor: 0.9}, genFresh, func(c freshCase) pbt.Outcome { last = c; return checkFresh(c) })
 }
